@@ -27,6 +27,8 @@ type (
 	LocV struct {
 		P Path
 		T types.Type
+		// Fix: the integer stored here is assumed to be this constant (Engine.AssumeField)
+		Fix *int64
 	}
 	// RefV is a pointer to a local holding V.
 	RefV struct{ V Val }
@@ -85,6 +87,11 @@ type Engine struct {
 	NonNegOracle func(fn *ssa.Function, intArgsNonNeg bool) bool
 	oracleMemo   map[oracleKey]bool
 	Pkg    *ssa.Package
+	// AssumeField fixes an integer field of every value of a named struct type ("Type.Field") to a
+	// constant: the evaluation is then valid for the values having that field value only.
+	AssumeField map[string]int64
+	// NoWrap lists functions whose fixed-width arithmetic is assumed not to wrap (size-domain assumption).
+	NoWrap map[*ssa.Function]bool
 
 	MaxDepth int
 	nextID   int
@@ -141,6 +148,8 @@ type Frame struct {
 	byHead  map[*ssa.BasicBlock]*loopInfo
 	sol     map[*ssa.Phi]Val
 	solving map[*ssa.Phi]bool
+	delta   map[*ssa.Phi]Lin
+	deadMem map[*ssa.BasicBlock]int
 	depth   int
 }
 
@@ -154,7 +163,7 @@ func (e *Engine) EvalRoot(fn *ssa.Function) *FuncResult {
 			if pt, ok := t.Underlying().(*types.Pointer); ok {
 				t = pt.Elem()
 			}
-			args[i] = LocV{Path{{S: "r"}}, t}
+			args[i] = LocV{P: Path{{S: "r"}}, T: t}
 			continue
 		}
 		if b, ok := p.Type().Underlying().(*types.Basic); ok && b.Info()&types.IsInteger != 0 {
@@ -180,7 +189,7 @@ func (e *Engine) evalFunc(fn *ssa.Function, args []Val, depth int) *FuncResult {
 	if fn.Blocks == nil || depth > e.MaxDepth {
 		return res
 	}
-	f := &Frame{e: e, fn: fn, args: map[*ssa.Parameter]Val{}, memo: map[ssa.Value]Val{}, byHead: map[*ssa.BasicBlock]*loopInfo{}, sol: map[*ssa.Phi]Val{}, solving: map[*ssa.Phi]bool{}, depth: depth}
+	f := &Frame{e: e, fn: fn, args: map[*ssa.Parameter]Val{}, memo: map[ssa.Value]Val{}, byHead: map[*ssa.BasicBlock]*loopInfo{}, sol: map[*ssa.Phi]Val{}, solving: map[*ssa.Phi]bool{}, delta: map[*ssa.Phi]Lin{}, deadMem: map[*ssa.BasicBlock]int{}, depth: depth}
 	res.Frame = f
 	for i, p := range fn.Params {
 		if i < len(args) {
@@ -215,7 +224,7 @@ func (e *Engine) evalFunc(fn *ssa.Function, args []Val, depth int) *FuncResult {
 			continue
 		}
 		ret, ok := b.Instrs[len(b.Instrs)-1].(*ssa.Return)
-		if !ok {
+		if !ok || f.dead(b) {
 			continue
 		}
 		vals := make([]Val, nres)
@@ -442,9 +451,28 @@ func load(p Path, t types.Type) Val {
 	case *types.Slice:
 		return SliceV{Len: AtomLin(LenOf{p}), P: p, HasP: true}
 	case *types.Struct:
-		return LocV{p, t}
+		return LocV{P: p, T: t}
+	case *types.Pointer:
+		if _, ok := u.Elem().Underlying().(*types.Struct); ok {
+			return LocV{P: p.with(PathElem{S: ".*"}), T: u.Elem()}
+		}
 	}
 	return TopV{}
+}
+
+// fieldFix: the assumed constant of field fl of struct type t, if any.
+func (e *Engine) fieldFix(t types.Type, fl *types.Var) *int64 {
+	if e.AssumeField == nil {
+		return nil
+	}
+	n, ok := t.(*types.Named)
+	if !ok {
+		return nil
+	}
+	if v, ok := e.AssumeField[n.Obj().Name()+"."+fl.Name()]; ok {
+		return &v
+	}
+	return nil
 }
 
 func (f *Frame) eval1(v ssa.Value) Val {
@@ -478,7 +506,7 @@ func (f *Frame) eval1(v ssa.Value) Val {
 				return TopV{}
 			}
 			fl := st.Field(x.Field)
-			return LocV{lv.P.with(PathElem{S: "." + fl.Name()}), fl.Type()}
+			return LocV{P: lv.P.with(PathElem{S: "." + fl.Name()}), T: fl.Type(), Fix: f.e.fieldFix(lv.T, fl)}
 		}
 		return TopV{}
 	case *ssa.Field:
@@ -488,6 +516,11 @@ func (f *Frame) eval1(v ssa.Value) Val {
 				return TopV{}
 			}
 			fl := st.Field(x.Field)
+			if fix := f.e.fieldFix(lv.T, fl); fix != nil {
+				if _, isInt := intType(fl.Type()); isInt {
+					return IntV{Const(*fix)}
+				}
+			}
 			return load(lv.P.with(PathElem{S: "." + fl.Name()}), fl.Type())
 		}
 		return TopV{}
@@ -501,12 +534,17 @@ func (f *Frame) eval1(v ssa.Value) Val {
 			return TopV{}
 		}
 		et := x.Type().Underlying().(*types.Pointer).Elem()
-		return LocV{sv.P.with(PathElem{ID: id}), et}
+		return LocV{P: sv.P.with(PathElem{ID: id}), T: et}
 	case *ssa.UnOp:
 		switch x.Op {
 		case token.MUL:
 			switch p := f.eval(x.X).(type) {
 			case LocV:
+				if p.Fix != nil {
+					if _, isInt := intType(p.T); isInt {
+						return IntV{Const(*p.Fix)}
+					}
+				}
 				return load(p.P, p.T)
 			case RefV:
 				return p.V
@@ -613,7 +651,7 @@ func (f *Frame) evalBinOp(x *ssa.BinOp) Val {
 		return TopV{} // comparisons
 	}
 	wraps := x.Op == token.ADD || x.Op == token.SUB || x.Op == token.MUL || x.Op == token.SHL || (x.Op == token.QUO && bt.Info()&types.IsUnsigned == 0)
-	if basicBits(bt) < 64 && wraps && !(a.L.IsConst() && b.L.IsConst()) {
+	if basicBits(bt) < 64 && wraps && !(a.L.IsConst() && b.L.IsConst()) && !f.e.NoWrap[f.fn] {
 		// fixed-width arithmetic below the word size may wrap: kept uninterpreted
 		return IntV{AtomLin(Op{x.Op.String() + ":" + bt.Name(), []Lin{a.L, b.L}})}
 	}
@@ -766,13 +804,20 @@ func (f *Frame) evalPhi(phi *ssa.Phi) Val {
 	if li == nil {
 		var out Val
 		same := true
+		first := true
 		for i, e := range phi.Edges {
+			if f.deadEdge(b.Preds[i], b) {
+				continue // unreachable under the assumed field values
+			}
 			v := f.eval(e)
-			if i == 0 {
-				out = v
+			if first {
+				out, first = v, false
 			} else if valKey(out) != valKey(v) {
 				same = false
 			}
+		}
+		if first {
+			return TopV{}
 		}
 		if same {
 			return out
@@ -798,6 +843,82 @@ func (f *Frame) evalPhi(phi *ssa.Phi) Val {
 		return SliceV{Len: AtomLin(Acc{phi})}
 	}
 	return TopV{}
+}
+
+// foldCond: the outcome of a branch condition that compares two constants (possible under AssumeField).
+func (f *Frame) foldCond(c ssa.Value) (bool, bool) {
+	cmp, ok := c.(*ssa.BinOp)
+	if !ok {
+		return false, false
+	}
+	x, ok1 := f.eval(cmp.X).(IntV)
+	y, ok2 := f.eval(cmp.Y).(IntV)
+	if !ok1 || !ok2 || !x.L.IsConst() || !y.L.IsConst() {
+		return false, false
+	}
+	a, b := x.L.C, y.L.C
+	switch cmp.Op {
+	case token.EQL:
+		return a == b, true
+	case token.NEQ:
+		return a != b, true
+	case token.LSS:
+		return a < b, true
+	case token.LEQ:
+		return a <= b, true
+	case token.GTR:
+		return a > b, true
+	case token.GEQ:
+		return a >= b, true
+	}
+	return false, false
+}
+
+// deadEdge: the edge p -> b is never taken (its branch condition folds the other way) or p is dead.
+func (f *Frame) deadEdge(p, b *ssa.BasicBlock) bool {
+	if f.dead(p) {
+		return true
+	}
+	if iff, ok := p.Instrs[len(p.Instrs)-1].(*ssa.If); ok && p.Succs[0] != p.Succs[1] {
+		if v, known := f.foldCond(iff.Cond); known {
+			taken := p.Succs[1]
+			if v {
+				taken = p.Succs[0]
+			}
+			return taken != b
+		}
+	}
+	return false
+}
+
+// dead: every edge into b is dead (decided along the dominator tree; loops keep their header alive
+// through the entry edge).
+func (f *Frame) dead(b *ssa.BasicBlock) bool {
+	if f.e.AssumeField == nil || b == f.fn.Blocks[0] {
+		return false
+	}
+	switch f.deadMem[b] {
+	case 1:
+		return false
+	case 2:
+		return true
+	}
+	f.deadMem[b] = 1 // provisional (cycles): alive
+	all := len(b.Preds) > 0
+	for _, p := range b.Preds {
+		if b.Dominates(p) {
+			continue // back edge: does not make the header reachable on its own
+		}
+		if !f.deadEdge(p, b) {
+			all = false
+			break
+		}
+	}
+	if all {
+		f.deadMem[b] = 2
+		return true
+	}
+	return false
 }
 
 // iteOf: a two-way merge of integers controlled by a comparison of symbolic integers.
@@ -890,6 +1011,9 @@ func (f *Frame) solve(phi *ssa.Phi) (Lin, bool) {
 	var init, delta *Lin
 	self := Acc{phi}.key(nil)
 	for i, pred := range phi.Block().Preds {
+		if li.blocks[pred] && f.deadEdge(pred, phi.Block()) {
+			continue // a latch that is unreachable under the assumed field values
+		}
 		l, ok := linOf(f.eval(phi.Edges[i]))
 		if !ok {
 			return fail()
@@ -923,6 +1047,7 @@ func (f *Frame) solve(phi *ssa.Phi) (Lin, bool) {
 		return fail()
 	}
 	res := *init
+	f.delta[phi] = *delta
 	res = res.Add(mkPrefix(li.id, *delta))
 	f.sol[phi] = IntV{res}
 	return res, true
